@@ -30,7 +30,7 @@ theorem step_commenting (st : State) (op : Op) :
   | trivia c t =>
     cases c <;> simp only [step, writeTrivia, Op.pendingAfter, pushStr, uncomment] <;>
       (repeat' split) <;> simp_all
-  | token t l sc =>
+  | token t l sc r =>
     simp only [step, writeTokenContent, Op.pendingAfter, prepToken, pushStr, uncomment, pad, pushSpace]
     (repeat' split) <;> simp_all
   | symbol t sc =>
@@ -45,7 +45,7 @@ theorem step_line (st : State) (op : Op) :
   | trivia c t =>
     cases c <;> simp only [step, writeTrivia, Op.lineAfter, Op.fires, pushStr, uncomment] <;>
       (repeat' split) <;> simp_all
-  | token t l sc =>
+  | token t l sc r =>
     simp only [step, writeTokenContent, Op.lineAfter, prepToken, pushStr, uncomment, pad, pushSpace]
     (repeat' split) <;> simp_all
   | symbol t sc =>
@@ -66,12 +66,13 @@ theorem step_inv (st : State) (op : Op) (h : Inv st) : Inv (step st op) := by
   | trivia c t =>
     cases c <;> simp only [step, writeTrivia, pushStr, uncomment] <;>
       (repeat' split) <;> simp_all [cnl_append, cnl_reverse, cnl_cons_nl] <;> omega
-  | token t l sc =>
+  | token t l sc r =>
     simp only [step, writeTokenContent, prepToken, pushStr, uncomment, pad, pushSpace]
     (repeat' split) <;> simp_all [cnl_append, cnl_reverse, cnl_cons_nl, cnl_cons_sp, cnl_replicate] <;> omega
   | symbol t sc =>
     simp only [step, writeSymbol, pushStr, uncomment, pushSpace]
-    (repeat' split) <;> simp_all [cnl_append, cnl_reverse, cnl_cons_nl, cnl_cons_sp] <;> omega
+    (repeat' split) <;>
+      simp_all [cnl_append, cnl_reverse, cnl_cons_nl, cnl_cons_sp, List.head?_eq_none_iff, cnl_nil] <;> omega
   | rawPush t => simp_all [step, pushStr, cnl_append, cnl_reverse]; omega
   | rawSpace => simp_all [step, pushSpace, cnl_cons_sp]
 
@@ -93,7 +94,7 @@ theorem step_rout (st : State) (op : Op) : st.rout <:+ (step st op).rout := by
   | trivia c t =>
     cases c <;> simp only [step, writeTrivia, pushStr, uncomment] <;> (repeat' split) <;>
       repeat (first | exact List.suffix_refl _ | apply suf_app | apply suf_cons)
-  | token t l sc =>
+  | token t l sc r =>
     simp only [step, writeTokenContent, prepToken, pushStr, uncomment, pad, pushSpace]
     (repeat' split) <;>
       repeat (first | exact List.suffix_refl _ | apply suf_app | apply suf_cons)
@@ -130,7 +131,7 @@ theorem step_piece_lines (st : State) (op : Op) (hp : op.isPiece = true) (hinv :
   | trivia c t =>
     cases c <;> simp only [step, writeTrivia, pushStr, uncomment, Op.text] <;>
       (repeat' split) <;> simp_all [Op.fires, cnl_append, cnl_reverse] <;> omega
-  | token t l sc =>
+  | token t l sc r =>
     by_cases ht : t.isEmpty = true
     · have : t = [] := by simpa using ht
       subst this
@@ -157,37 +158,41 @@ theorem needsSpace_eq (st : State) (c : UInt8) :
 
 theorem step_piece_exact (st : State) (op : Op) (hp : op.isPiece = true) (hinv : Inv st)
     (hf : op.fires st.commenting = false) (hl : op.lineOk (countNewLines st.rout) = true)
-    (hs : op.h3ok st.rout.head? = true) :
-    (step st op).rout = op.text.reverse ++ st.rout ∧ (step st op).spaces = st.spaces := by
+    (hs : op.h3ok st.rout.head? st.lastEnd = true) :
+    (step st op).rout = op.text.reverse ++ st.rout ∧ (step st op).spaces = st.spaces ∧
+    (step st op).lastEnd = op.endAfter st.lastEnd := by
   unfold Inv at hinv
   cases op with
   | trivia c t =>
-    cases c <;> simp only [step, writeTrivia, pushStr, uncomment, Op.text] <;>
+    cases c <;> simp only [step, writeTrivia, pushStr, uncomment, Op.text, Op.endAfter] <;>
       (repeat' split) <;> simp_all [Op.fires]
-  | token t l sc =>
+  | token t l sc r =>
     by_cases ht : t.isEmpty = true
     · have : t = [] := by simpa using ht
       subst this
-      simp [step, writeTokenContent, Op.text]
+      simp [step, writeTokenContent, Op.text, Op.endAfter]
     · have hc : st.commenting = false := by simpa [Op.fires, ht] using hf
-      have hnospace : ∀ c, t.head? = some c → (sc && needsSpace st c) = false := by
+      have hnospace : ∀ c, t.head? = some c →
+          (sc && !followsOriginal st.lastEnd r && needsSpace st c) = false := by
         intro c hc'
         cases sc with
         | false => rfl
         | true =>
-          simp only [Op.h3ok, hc'] at hs
-          rw [needsSpace_eq]
-          cases hr : st.rout.head? with
-          | none => simp
-          | some e => simp [hr] at hs; simp [hs]
+          simp only [Op.h3ok, hc', Bool.or_eq_true] at hs
+          rcases hs with hs | hs
+          · simp [hs]
+          · rw [needsSpace_eq]
+            cases hr : st.rout.head? with
+            | none => simp
+            | some e => simp [hr] at hs; simp [hs]
       cases l with
       | none =>
-        simp only [step, writeTokenContent, prepToken, hc, Op.text]
+        simp only [step, writeTokenContent, prepToken, hc, Op.text, Op.endAfter]
         (repeat' split) <;> simp_all [pushStr, pushSpace]
       | some n =>
         have hn : n ≤ st.line := by
           simp [Op.lineOk, ht] at hl; omega
-        simp only [step, writeTokenContent, prepToken, hc, Op.text]
+        simp only [step, writeTokenContent, prepToken, hc, Op.text, Op.endAfter]
         rw [show (if false = true then uncomment st else st) = st from rfl, pad_self st n hn]
         (repeat' split) <;> simp_all [pushStr, pushSpace]
   | symbol t sc => simp [Op.isPiece] at hp
@@ -223,7 +228,7 @@ theorem run_pieces_lines : ∀ (l : List Op) (st : State), (∀ op ∈ l, op.isP
 
 theorem run_pieces_exact : ∀ (l : List Op) (st : State), (∀ op ∈ l, op.isPiece = true) → Inv st →
     linesOk (countNewLines st.rout) l = true → commentsOk st.commenting l = true →
-    h3 st.rout.head? l = true →
+    h3 st.rout.head? st.lastEnd l = true →
     (run st l).rout = (texts l).reverse ++ st.rout ∧ (run st l).spaces = st.spaces := by
   intro l
   induction l with
@@ -235,9 +240,9 @@ theorem run_pieces_exact : ∀ (l : List Op) (st : State), (∀ op ∈ l, op.isP
     have h1 := step_piece_exact st op (hp op (by simp)) hinv hc.1 hl.1 hs.1
     have h2 := ih (step st op) (fun o ho => hp o (by simp [ho])) (step_inv st op hinv)
       (by rw [h0.2.2]; exact hl.2) (by rw [step_commenting]; exact hc.2)
-      (by rw [h1.1, head_lastOf]; exact hs.2)
+      (by rw [h1.1, h1.2.2, head_lastOf]; exact hs.2)
     simp only [run, texts]
-    refine ⟨?_, by rw [h2.2, h1.2]⟩
+    refine ⟨?_, by rw [h2.2, h1.2.1]⟩
     rw [h2.1, h1.1]; simp
 
 theorem tok_ops_isPiece (t : Tok) : ∀ op ∈ t.ops, op.isPiece = true := by
